@@ -2,8 +2,12 @@ package props
 
 import (
 	"fmt"
+	"reflect"
+	"strings"
 	"testing"
 
+	"github.com/ovn-org/libovsdb/model"
+	"github.com/ovn-org/libovsdb/ovsdb"
 	"pgregory.net/rapid"
 
 	"verif/pbt/kit"
@@ -133,4 +137,138 @@ func TestC15(t *testing.T) {
 	rapid.Check(t, func(t *rapid.T) {
 		runHistory(t, "C15", p, cfgC15, 8, c15After)
 	})
+}
+
+type c15APICase struct {
+	Models  []string `json:"models"` // table, _uuid field as given, reference
+	Results string   `json:"results,omitempty"`
+}
+
+// TestC15API: Create() with several models in one call - models whose _uuid field holds a
+// symbolic name (which other models of the call use as a reference), a real uuid, or
+// nothing. Each model must become its own row: a name denotes exactly the row inserted
+// under it, every reference resolves to the row it named, real uuids are kept, rows
+// without name or uuid get fresh uuids of their own.
+func TestC15API(t *testing.T) {
+	w := c16World(t)
+	rapid.Check(t, func(t *rapid.T) {
+		kit.PinUUIDs(1)
+		a, err := newAPIWorld(w.S, nil)
+		if err != nil {
+			t.Fatalf("harness: %v", err)
+		}
+		defer a.close()
+		kase := c15APICase{}
+		fail := func(class, format string, args ...interface{}) {
+			kit.Fail(t, "C15", class, kase, format, args...)
+		}
+		type spec struct {
+			table  string
+			field  string // what the model's _uuid field holds
+			marker string
+			peer   string // T1 only: the _uuid field of the T0 model it points at ("" = none)
+		}
+		n := rapid.IntRange(2, 6).Draw(t, "nmodels")
+		var specs []spec
+		var t0fields []string
+		for i := 0; i < n; i++ {
+			sp := spec{marker: fmt.Sprintf("m%d", i)}
+			switch rapid.IntRange(0, 2).Draw(t, "uuidform") {
+			case 0:
+				sp.field = fmt.Sprintf("name%d", i)
+			case 1:
+				sp.field = kit.MkUUID(3000 + i)
+			}
+			if len(t0fields) > 0 && rapid.IntRange(0, 2).Draw(t, "t1") == 0 {
+				sp.table = "T1"
+				sp.peer = rapid.SampledFrom(t0fields).Draw(t, "peer")
+			} else {
+				sp.table = "T0"
+				if sp.field != "" {
+					t0fields = append(t0fields, sp.field)
+				}
+			}
+			specs = append(specs, sp)
+		}
+		// T1 models may also come before the T0 model they reference
+		specs = rapid.Permutation(specs).Draw(t, "order")
+		var models []model.Model
+		for _, sp := range specs {
+			kase.Models = append(kase.Models, fmt.Sprintf("%s _uuid=%q marker=%s peer=%q", sp.table, sp.field, sp.marker, sp.peer))
+			if sp.table == "T0" {
+				models = append(models, a.w.ModelFromRow("T0", sp.field, kit.Row{"marker": kit.Scalar(kit.Str(sp.marker))}))
+				continue
+			}
+			row := kit.Row{"name": kit.Scalar(kit.Str(sp.marker))}
+			m := a.w.ModelFromRow("T1", sp.field, row)
+			// the reference is the other model's _uuid field, verbatim (a name or a uuid)
+			peer := sp.peer
+			reflect.ValueOf(fieldPtrByColumn(a.w, "T1", m, "peer")).Elem().Set(reflect.ValueOf(&peer))
+			models = append(models, m)
+		}
+		ops, err := a.c.Create(models...)
+		if err != nil {
+			fail("api.create-error", "Create: %v", err)
+		}
+		if len(ops) != len(models) {
+			fail("api.create-ops", "Create of %d models returned %d operations", len(models), len(ops))
+		}
+		res, err := a.c.Transact(a.ctx, ops...)
+		kase.Results = kit.ResultsJSON(resultPtrs(res))
+		if err != nil {
+			fail("api.create-rejected", "the operations Create built are rejected: %v (%s)", err, kit.MustJSON(ops))
+		}
+		for i, r := range res {
+			if r.Error != "" {
+				fail("api.create-rejected", "the operations Create built are rejected: operation %d: %s %s (%s)", i, r.Error, r.Details, kit.MustJSON(ops))
+			}
+		}
+		db, err := a.srv.Snapshot()
+		if err != nil {
+			t.Fatalf("snapshot: %v", err)
+		}
+		uuidOf := map[string]string{} // _uuid field -> uuid of the inserted row
+		seen := map[string]bool{}
+		for i, sp := range specs {
+			u := res[i].UUID.GoUUID
+			if seen[u] {
+				fail("create.shared-uuid", "two models of one Create call were inserted under the same uuid %s", u)
+			}
+			seen[u] = true
+			if kit.IsUUID(sp.field) && u != sp.field {
+				fail("create.real-uuid", "model %d asked for uuid %s and was inserted as %s", i, sp.field, u)
+			}
+			if sp.field != "" {
+				uuidOf[sp.field] = u
+			}
+			row, ok := db[sp.table][u]
+			col := map[string]string{"T0": "marker", "T1": "name"}[sp.table]
+			if !ok || row[col].K[0].S != sp.marker {
+				fail("create.wrong-row", "model %d (%s) is not the row stored under the uuid its insert reported (%s)", i, sp.marker, u)
+			}
+		}
+		if len(db["T0"])+len(db["T1"]) != len(specs) {
+			fail("create.row-count", "%d models created %d rows", len(specs), len(db["T0"])+len(db["T1"]))
+		}
+		refs := 0
+		for i, sp := range specs {
+			if sp.table != "T1" {
+				continue
+			}
+			refs++
+			got := db["T1"][res[i].UUID.GoUUID]["peer"]
+			if len(got.K) != 1 || got.K[0].S != uuidOf[sp.peer] {
+				fail("name.resolution", "model %d refers to %q, which was inserted as %s, but stores peer=%s", i, sp.peer, uuidOf[sp.peer], got.Key())
+			}
+		}
+		kit.Record("C15", "api|"+strings.Join(kase.Models, ";"), refs > 0, func() interface{} { return kase }, "api:create", fmt.Sprintf("api:create-references:%d", refs))
+	})
+}
+
+func resultPtrs(rs []ovsdb.OperationResult) []*ovsdb.OperationResult {
+	out := make([]*ovsdb.OperationResult, len(rs))
+	for i := range rs {
+		out[i] = &rs[i]
+	}
+	return out
 }
